@@ -271,6 +271,7 @@ pub fn gen_random(seed: u64, idx: u64) -> Plan {
                     req: j,
                     cancel_ms: 0,
                     no_length: r.chance(1, 2),
+                    frames: if r.chance(1, 2) { (0..r.range(1, 6)).map(|_| if r.chance(1, 4) { 0 } else { r.usize_in(1, lim.max(1)) }).collect() } else { vec![] },
                 });
                 c.reqs.push(sr.plan);
                 nonce += 1;
